@@ -129,6 +129,33 @@ def gen_tree_case(rng):
             "mode": rng.choice(["tree", "tree", "default", "planning_only"])}
 
 
+def dup_tree_cases():
+    """trees with spare children: k = 3, nodes holding members with one and the same forecast next to a member
+    with another one, forecasts that vary inside a segment by a pattern shared by all members"""
+    import random
+    r = random.Random(20260711)
+    out = []
+    for i in range(24):
+        E = r.choice([3, 3, 5, 6])
+        seg_lens = [r.choice([2, 4]) for _ in range(r.randint(2, 3))]
+        n = sum(seg_lens)
+        starts = [sum(seg_lens[:j]) for j in range(len(seg_lens))]
+        nbt = r.randint(1, len(seg_lens) - 1)
+        nf = r.choice([1, 2])
+        pool = [0, 1, 2, 3, -1, Fraction(1, 2), Fraction(3, 8)]
+        offs = [[[r.choice(pool) for _ in seg_lens] for _ in range(nf)] for _ in range(E)]
+        offs[2] = [list(x) for x in offs[0]]                     # members 0 and 2: the same forecast throughout
+        if all(offs[1][f] == offs[0][f] for f in range(nf)):
+            offs[1][0][-1] = offs[0][0][-1] + 1                  # member 1 differs at least in the last segment
+        if E > 3:
+            offs[4] = [list(x) for x in offs[3]]
+        wig = [[str(Fraction(r.randint(-15, 15), 8)) for _ in range(n)] for _ in range(nf)]
+        out.append({"k": "tree", "own_grid": False, "E": E, "seg_lens": seg_lens, "nbt": nbt,
+                    "bts": [str(Fraction(starts[j])) for j in range(1, nbt + 1)], "kk": 3, "nf": nf,
+                    "offs": [[[str(x) for x in v] for v in mem] for mem in offs], "planning": False, "mode": "tree", "wiggle": wig})
+    return out
+
+
 def tree_problem(c):
     from rtctools.optimization.control_tree_mixin import ControlTreeMixin
     from rtctools.optimization.planning_mixin import PlanningMixin
@@ -145,6 +172,9 @@ def tree_problem(c):
             v = []
             for sl, off in zip(c["seg_lens"], c["offs"][m][f]):
                 v += [off] * sl
+            if c.get("wiggle"):
+                # a pattern common to all members (eighths: every sum and difference is exact in binary64)
+                v = [str(Fraction(a) + Fraction(w)) for a, w in zip(v, c["wiggle"][f])]
             d[cins[f]] = v
         vals.append(d)
     spec = {"times": times, "states": [], "algebraics": ["y"], "controls": ["u", "w"], "constant_inputs": cins,
@@ -400,7 +430,7 @@ def run(ctx):
     # ---- B ----
     if rs:
         return
-    cases = [c for c in core.corpus_cases(ID) if c.get("k") == "tree"] + [gen_tree_case(ctx.rng) for _ in range(ctx.n(120, 4000))]
+    cases = [c for c in core.corpus_cases(ID) if c.get("k") == "tree"] + dup_tree_cases() + [gen_tree_case(ctx.rng) for _ in range(ctx.n(120, 4000))]
     rows = []
     for c in cases:
         try:
